@@ -103,7 +103,12 @@ def run(chk):
     for fn, o in __import__("framework").load_corpus("C15"):
         if "hex" in o:
             inputs.append(bytes.fromhex(o["hex"]))
-    inputs += [b"", b"\n", b"\"a\nb\" x", b"'\n' y", b"// only comment", b"x//c\ny", b"1.5", b"12b", b"\"open", b"'", b"'a", b"a\r\nb"]
+    inputs += [b"", b"\n", b"\"a\nb\" x", b"'\n' y", b"// only comment", b"x//c\ny", b"1.5", b"12b", b"\"open", b"'", b"'a", b"a\r\nb",
+               b"string s = \"first\r\nsecond\"; x", b"\"a\rb\" y", b"\"\r\n\" z", b"'\r' c", b"// c\r\nx = \"p\r\nq\r\n\";\r\ny",
+               b"echo(\"l1\r\nl2\r\nl3\");\r\nint z;"]
+    # whole sources converted to CRLF line endings (string literals spanning lines included)
+    for _f, b in bytegen.corpus_sources()[:6]:
+        inputs.append(b.replace(b"\n", b"\r\n"))
     corp = bytegen.corpus_sources()
     inputs += [b for _f, b in corp]
     inputs += bytegen.token_soup(rng, 40000 if chk.thorough else 900)
